@@ -301,6 +301,15 @@ def standin_routing(tier, seed):
             elif r < 0.6:
                 mapper = cirq.LineInitialMapper(graph)
                 mname = "LineInitialMapper"
+            elif r < 0.8 and len(nodes) > len(c.all_qubits()):
+                # a placement that also names logical qubits the circuit does not use, sitting BETWEEN the used ones (swaps pass through them)
+                import networkx as nx
+                k_spare = min(2, len(nodes) - len(c.all_qubits()))
+                order = list(nx.bfs_tree(graph, rng.choice(nodes)))[: len(c.all_qubits()) + k_spare]
+                logical_ = sorted(c.all_qubits()) + [cirq.NamedQubit(f"spare{j}") for j in range(k_spare)]
+                rng.shuffle(logical_)
+                mapper = cirq.HardCodedInitialMapper(dict(zip(logical_, order)))
+                mname = "hard-coded with spare logical qubits"
             R.cases += 1
             R.distinct.add((gname, repr(c), mname))
             try:
@@ -316,12 +325,32 @@ def standin_routing(tier, seed):
             if any(q not in graph.nodes for q in routed.all_qubits()):
                 R.bad("routed circuit uses a qubit outside the device graph", graph=gname, mapper=mname, circuit=c)
                 continue
-            if set(imap.keys()) != set(c.all_qubits()) or len(set(imap.values())) != len(imap):
+            spare_ok = mname.startswith("hard-coded with spare") and set(imap.keys()) >= set(c.all_qubits())
+            if (set(imap.keys()) != set(c.all_qubits()) and not spare_ok) or len(set(imap.values())) != len(imap):
                 R.bad("initial mapping is not an injective map of the circuit's qubits", graph=gname, mapper=mname, circuit=c)
+                continue
+            if set(smap.keys()) != set(smap.values()) or not set(smap.keys()) >= {imap[x] for x in c.all_qubits()} or (spare_ok and set(smap.keys()) != set(imap.values())):
+                R.bad("the reported final map is not a permutation of the placed physical qubits", graph=gname, mapper=mname, circuit=c, initial=imap, final=smap)
                 continue
             # equality up to the reported permutation: un-route by relabelling physical -> logical with the swaps undone
             try:
-                cirq.testing.assert_circuits_have_same_unitary_given_final_permutation(routed, c.transform_qubits(imap), smap)
+                if spare_ok:
+                    P = sorted(imap.values())
+                    if len(P) > 7:
+                        continue
+                    u_r = routed.unitary(qubit_order=P, qubits_that_should_be_present=P)
+                    u_o = c.transform_qubits(lambda x_: imap[x_]).unitary(qubit_order=P, qubits_that_should_be_present=P)
+                    idx = {p_: i_ for i_, p_ in enumerate(P)}
+                    perm_m = np.zeros((2 ** len(P),) * 2)
+                    for bits in itertools.product((0, 1), repeat=len(P)):
+                        nb = [0] * len(P)
+                        for p_ in P:
+                            nb[idx[smap[p_]]] = bits[idx[p_]]
+                        perm_m[int("".join(map(str, nb)), 2), int("".join(map(str, bits)), 2)] = 1
+                    if not cirq.allclose_up_to_global_phase(u_r, perm_m @ u_o, atol=1e-6):
+                        raise AssertionError("differs")
+                else:
+                    cirq.testing.assert_circuits_have_same_unitary_given_final_permutation(routed, c.transform_qubits(lambda x_: imap[x_]), smap)
             except AssertionError:
                 R.bad("routed circuit is not the input up to the reported initial mapping and final permutation", graph=gname, mapper=mname, circuit=c, routed=routed, initial=imap, final=smap)
             except Exception as ex:
